@@ -7,7 +7,7 @@ import "math/big"
 // RFC 7748 section 5: X448 as a Montgomery ladder over math/big.
 
 var (
-	p448   = func() *big.Int { // 2^448 - 2^224 - 1
+	p448 = func() *big.Int { // 2^448 - 2^224 - 1
 		p := new(big.Int).Lsh(big.NewInt(1), 448)
 		p.Sub(p, new(big.Int).Lsh(big.NewInt(1), 224))
 		return p.Sub(p, big.NewInt(1))
